@@ -11,6 +11,7 @@ pub mod diffgen;
 pub mod rawval;
 pub mod rawcodec_gen;
 pub mod jvmsframe;
+pub mod jvmsenc;
 pub mod rawgolden;
 pub mod c01facts;
 pub mod c01model;
